@@ -4,6 +4,8 @@ import (
 	"bytes"
 	"encoding/binary"
 	"fmt"
+	"github.com/EdgeCast/vflow/ipfix"
+	netflow9 "github.com/EdgeCast/vflow/netflow/v9"
 	"net"
 	"os"
 	"path/filepath"
@@ -307,7 +309,10 @@ func mirrorE2EMain(args mon.Args) {
 	}
 	run.Set("datagrams_sent", totalSent)
 	run.Set("datagrams_received_by_the_third_party_listener", totalRx)
-	run.SetRule("end-to-end tier: the real binary with mirroring of IPFIX and sFlow towards a UDP listener, sockets bound to the wildcard (exporter addresses reach the mirror in 16-byte form) or to 127.0.0.1 (4-byte form), max-udp-size 512/1500, exporters 127.x.y.z, payload lengths 0..max with the bands next to 0, 28, 256 and the maximum always included; each datagram must arrive exactly once, byte-identical, from the exporter's address. distinct = collector configuration")
+	if args.Replay == "" {
+		mirrorAcrossLives(run, bin, dir)
+	}
+	run.SetRule("end-to-end tier: the real binary with mirroring of IPFIX and sFlow towards a UDP listener, sockets bound to the wildcard (exporter addresses reach the mirror in 16-byte form) or to 127.0.0.1 (4-byte form), max-udp-size 512/1500, exporters 127.x.y.z, payload lengths 0..max with the bands next to 0, 28, 256 and the maximum always included; each datagram must arrive exactly once, byte-identical, from the exporter's address; the collector is stopped under traffic and must exit cleanly; a two-life scenario learns IPFIX templates with mirroring off, restarts on the same cache file with mirroring on (and the other way round) and requires data sent without templates to be published as its stand-alone decode. distinct = collector configuration")
 	run.Finish()
 }
 
@@ -335,4 +340,136 @@ func udpSnmp(name string) int64 {
 		}
 	}
 	return 0
+}
+
+// mirrorAcrossLives: "mirroring never changes what is decoded and published" across a restart. Life 1 learns the
+// IPFIX templates of 12 exporters and saves them; life 2 runs on the same cache file with the mirror setting flipped
+// (off -> on and on -> off) and receives data only. Every such datagram must be published as its stand-alone decode:
+// whether a template counts as known must not depend on whether a copy of the datagram is also sent elsewhere.
+func mirrorAcrossLives(run *mon.Run, bin, dir string) {
+	for vi, firstMirror := range []bool{false, true} {
+		g := mon.NewRNG(run.Seed, "e2e-mirror-lives", vi)
+		pdir := filepath.Join(dir, fmt.Sprintf("lives%d", vi))
+		os.MkdirAll(pdir, 0o755)
+		lc, err := net.ListenUDP("udp4", &net.UDPAddr{IP: net.IPv4(127, 0, 0, 1)})
+		if err != nil {
+			run.HarnessError(err.Error())
+			return
+		}
+		go func() {
+			b := make([]byte, 70000)
+			for {
+				if _, _, err := lc.ReadFromUDP(b); err != nil {
+					return
+				}
+			}
+		}()
+		sink, err := newSinkT()
+		if err != nil {
+			run.HarnessError(err.Error())
+			lc.Close()
+			return
+		}
+		port, statsPort := reservedPort(), reservedPort()
+		o := wire.GenOpts{Elems: snapE, Reduced: true, MaxFields: 6, MaxStrLen: 8, OnlyPEN0: true, Varlen: true}
+		type expT struct {
+			ip  net.IP
+			tpl *wire.Template
+			ann []byte
+		}
+		var exps []expT
+		for i := 0; i < 12; i++ {
+			t := wire.GenTemplate(g, uint16(256+i%3), o)
+			t.Fields, t.Scope, t.Options = t.All(), nil, false
+			ann, _ := wire.EncodeFlow("ipfix", []uint32{1, 2, 3, 4}, []wire.Set{{Kind: wire.SetTemplate, Templates: []*wire.Template{t}}})
+			exps = append(exps, expT{net.IPv4(127, 88, byte(vi), byte(1+i)).To4(), t, ann})
+		}
+		seq := uint32(5000)
+		desc := fmt.Sprintf("two lives on one cache file, mirroring %v in the first and %v in the second", firstMirror, !firstMirror)
+		ok := true
+		for life := 0; life < 2 && ok; life++ {
+			mirrorOn := firstMirror == (life == 0)
+			conf := map[string]string{
+				"mq-name": "rawSocket", "mq-config-file": "mq.conf", "ipfix-rpc-enabled": "false", "dynamic-workers": "false",
+				"stats-format": "rest", "stats-http-port": strconv.Itoa(statsPort), "stats-http-addr": "127.0.0.1",
+				"pid-file": filepath.Join(pdir, "vflow.pid"), "ipfix-tpl-cache-file": filepath.Join(pdir, "i.tpl"),
+				"sflow-enabled": "false", "netflow5-enabled": "false", "netflow9-enabled": "false",
+				"ipfix-port": strconv.Itoa(port), "ipfix-workers": "4",
+			}
+			if mirrorOn {
+				conf["ipfix-mirror-addr"], conf["ipfix-mirror-port"] = "127.0.0.1", strconv.Itoa(lc.LocalAddr().(*net.UDPAddr).Port)
+			}
+			writeConf(pdir, conf, sink.port)
+			col, err := startCollector(bin, pdir, nil, nil, nil)
+			if err != nil {
+				run.HarnessError(err.Error())
+				break
+			}
+			for d := time.Now().Add(15 * time.Second); time.Now().Before(d) && col.alive(); time.Sleep(5 * time.Millisecond) {
+				if udp, tcp := sockets(col.pid()); udp[port] && tcp[statsPort] != "" {
+					break
+				}
+			}
+			time.Sleep(400 * time.Millisecond) // the mirror dispatcher flips its flag on its own goroutine
+			snd := newSender()
+			lib := &libC{ic: ipfix.GetCache(""), nc: netflow9.GetCache("")}
+			type probe struct {
+				e    expT
+				seq  uint32
+				want []byte
+			}
+			var probes []probe
+			for _, e := range exps {
+				libDecodeAny("ipfix", mapped(e.ip), e.ann, lib)
+				if life == 0 {
+					snd.send(e.ip, port, e.ann)
+				}
+			}
+			time.Sleep(100 * time.Millisecond)
+			for _, e := range exps {
+				seq++
+				ds := wire.GenDataSet(g, e.tpl, 1, o, 0)
+				ds.Pad = 0
+				b, _ := wire.EncodeFlow("ipfix", []uint32{7, seq, 9, 0}, []wire.Set{ds})
+				probes = append(probes, probe{e, seq, libDecode("ipfix", mapped(e.ip), b, lib)})
+				snd.send(e.ip, port, b)
+			}
+			sink.waitLines(func(ls []string) bool {
+				n := 0
+				for _, l := range ls {
+					if m := seqRe2["ipfix"].FindStringSubmatch(l); m != nil {
+						if v, _ := strconv.Atoi(m[1]); v > int(seq)-len(exps) {
+							n++
+						}
+					}
+				}
+				return n >= len(exps)
+			}, 3*time.Second)
+			bySeq := map[string]string{}
+			for _, l := range sink.snapshot() {
+				if m := seqRe2["ipfix"].FindStringSubmatch(l); m != nil {
+					bySeq[m[1]] = l
+				}
+			}
+			run.Eval(1)
+			run.Distinct(fmt.Sprintf("%s|life%d", desc, life))
+			for _, p := range probes {
+				got, have := bySeq[fmt.Sprint(p.seq)]
+				if p.want != nil && (!have || got != string(p.want)) {
+					w := blastWitness{Seed: run.Seed, Index: vi, Desc: desc, Detail: fmt.Sprintf("life %d, mirroring %v", life+1, mirrorOn), Stderr: clip(col.stderr(), 2000), Got: clip(got, 500), Want: clip(string(p.want), 500)}
+					run.Violation("e2e-mirror:publishing-depends-on-mirroring", fmt.Sprintf("%s: in life %d (mirroring %v) data of exporter %v, whose template was learnt %s, is %s", desc, life+1, mirrorOn, p.e.ip,
+						map[bool]string{true: "in this life", false: "in the previous life (mirroring " + fmt.Sprint(!mirrorOn) + ") and saved in the cache file"}[life == 0],
+						map[bool]string{true: "published differently from its stand-alone decode", false: "not published"}[have]), w)
+					ok = false
+					break
+				}
+			}
+			col.cmd.Process.Signal(syscall.SIGTERM)
+			col.wait(10 * time.Second)
+			col.kill()
+			snd.close()
+		}
+		sink.close()
+		lc.Close()
+	}
 }
